@@ -643,12 +643,20 @@ def run_unit(ctx):
                     (py_node(0, [(8, 0, [0], 500)], (0, 0, [U64]), ntype=0), 0)]:
         tree_cases.append(dict(mode="indexraw", file=f.hex(), root=root, osz=8, ndims=1, cdims=[4]))
         tree_expect.append(None)
+    # entries used = 65535: len(Keys) = uint16(65535 + 1) = 0, so storing key 0 is an index panic (when the file is long
+    # enough for 65535 entries); 65534 with the same bytes is an ordinary (all-zero) node of 65534 entries - not evaluated
+    # by the model here (too long for the list-based evaluation), only its short-file error twin
+    hdr65535 = py_node(0, [], (0, 0, [0]), used=65535)[:24]
+    for f in (hdr65535 + bytes(65535 * 24 + 16), hdr65535 + bytes(4096)):
+        tree_cases.append(dict(mode="indexraw", file=f.hex(), root=0, osz=8, ndims=1, cdims=[4]))
+        tree_expect.append(None)
     raw_cases = tree_cases + gen_raw_cases(rng, raw_bases, thorough)
     raw_res = vlib.run_harness(H, "c01unit", raw_cases)
     base_i = len(cases)
     cases += raw_cases
     res += raw_res
     ir_terms, ir_idx, ir_weight = [], [], []
+    used65535 = [rclass(r) for c, r in zip(raw_cases, raw_res) if c["file"].startswith(hdr65535.hex())]
     malformed = {0: 0, 1: 0, 2: 0}
     for j, (c, r) in enumerate(zip(raw_cases, raw_res)):
         evaluations += 1
@@ -667,9 +675,11 @@ def run_unit(ctx):
         else:
             malformed[k] += 1
         rd = r.get("read", {})
-        ir_terms.append("(%s,%d,%d,%d%%nat,%s,%d,%s)" % (pk(c["file"]), c["root"], c["osz"], c["ndims"], cl(c["cdims"]), k, gents(rd)))
+        fb = bytes.fromhex(c["file"])
+        body = fb.rstrip(b"\0") if len(fb) > 8000 else fb     # long zero tails are not spelled out as literals
+        ir_terms.append("(%s,%d,%d,%d,%d%%nat,%s,%d,%s)" % (pk(body), len(fb) - len(body), c["root"], c["osz"], c["ndims"], cl(c["cdims"]), k, gents(rd)))
         ir_idx.append(base_i + j)
-        ir_weight.append(20 + len(c["file"]) // 14 + 6 * len(rd.get("entries") or []))
+        ir_weight.append(20 + len(body) // 7 + 6 * len(rd.get("entries") or []))
     weighted_groups("ir", "ircase", "ir_ok", ir_terms, ir_idx, ir_weight, 3000)
     if raw_res:
         samples.append(dict(mode="indexraw", root=raw_cases[-1]["root"], osz=raw_cases[-1]["osz"], ndims=raw_cases[-1]["ndims"],
@@ -740,6 +750,7 @@ def run_unit(ctx):
                 coq_cases=len(tile_terms) + len(conv_terms) + len(encint_terms) + len(encstr_terms) + len(decstr_terms) + len(iw_terms) + len(ir_terms),
                 index_cases=len(iw_terms), max_entries=max_entries, malformed_cases=sum(malformed.values()),
                 malformed_classes=dict(ok=malformed[0], err=malformed[1], panic=malformed[2]), tree_cases=len(tree_cases),
+                entries_used_65535_classes=used65535,
                 coq_seconds=round(coq_s, 1), wall_s=round(time.time() - t0, 1),
                 distribution=dict(tile=len(tile), resize=len(resize), conv_buffers=len(conv), enc_buffers=len(enc),
                                   ranks={k: sum(1 for c in tile + resize if len(c["dims"]) == k) for k in (1, 2, 3, 4)},
